@@ -96,8 +96,14 @@ class EnumDef:
                     lit = "0x" + "_".join(h[i:i + 4] for i in range(0, len(h), 4))
                 else:
                     lit = f"{d:#x}"
+                if n in getattr(self, "const_discr", ()):
+                    lit = f"VK_{self.name}_{n}"
                 out.append(f"    {n} = {lit},")
         out.append("}")
+        if getattr(self, "const_discr", ()):
+            rp = self.repr or "isize"
+            pre = [f"pub const VK_{self.name}_{n}: {rp} = {d:#x};" for (n, d, c) in self.variants if n in self.const_discr]
+            out = pre + out
         return "\n".join(out)
 
     def sig(self):
@@ -110,7 +116,7 @@ class EnumDef:
         has_cfg = any(c not in (None, "doc") for (_, _, c) in self.variants)
         if not (1 <= self.bits <= 64):
             return False
-        if getattr(self, "implicit", ()):
+        if getattr(self, "implicit", ()) or getattr(self, "const_discr", ()):
             return False  # every variant needs an explicit integer-literal discriminant
         if any(d >= n for (_, d, _) in self.variants):
             return False
